@@ -144,6 +144,9 @@ type Server struct {
 	DeafHanging   int // list calls in flight that ignore their context
 	Unstructured  bool // objects and lists in the dynamic client's representation (*unstructured.Unstructured / UnstructuredList)
 	EmptyListRV   bool // lists carry no resourceVersion of their own
+	// HeadFrame: every watch stream opens with a non-object frame (a server or
+	// proxy announcing itself): "bookmark" | "status" | "unknown-type"
+	HeadFrame string
 	Reuse         bool // one live object per key, mutated in place and re-sent by pointer
 	live          map[string]runtime.Object
 	FailFirstKind string // how the held first list fails (a list-script kind; "" = plain error)
@@ -692,6 +695,24 @@ func (c *conn) pump(ctx context.Context, gone bool) {
 		detsim.Count("fault:watch-gone-410")
 		c.send(ctx, watch.Event{Type: watch.Error, Object: &metav1.Status{Status: "Failure", Reason: metav1.StatusReasonExpired, Code: 410, Message: "too old resource version"}})
 		return
+	}
+	switch s.HeadFrame {
+	case "bookmark":
+		detsim.Count("fault:watch-head-frame")
+		rv := c.call.RV
+		if !c.send(ctx, watch.Event{Type: watch.Bookmark, Object: Build(s.Kind, Spec{RV: rv})}) {
+			return
+		}
+	case "status":
+		detsim.Count("fault:watch-head-frame")
+		if !c.send(ctx, watch.Event{Type: watch.Bookmark, Object: &metav1.Status{Status: "Success", Message: "stream open"}}) {
+			return
+		}
+	case "unknown-type":
+		detsim.Count("fault:watch-head-frame")
+		if !c.send(ctx, watch.Event{Type: watch.EventType("HELLO"), Object: Build(s.Kind, Spec{NS: "", Name: "hello", RV: c.call.RV})}) {
+			return
+		}
 	}
 	delivered := 0
 	for {
